@@ -54,3 +54,9 @@ pub const AGG_CHUNK: usize = 256;
 
 /// Vectorization dimension for sort.
 pub const SORT_CHUNK: usize = 256;
+
+// Verification hook (guard: `--cfg ipa_verif`, test builds only). Compiled out unless the guard is set.
+#[cfg(all(test, ipa_verif))]
+pub(crate) mod ipa_verif_h6 {
+    include!(concat!(env!("IPA_VERIF_DIR"), "/h6_ipa_prf.rs"));
+}
